@@ -286,6 +286,9 @@ type OrderOpt struct {
 	Success bool  // B must lie behind the success edge of A
 	Start   []int // region entry vertices (default: function entry)
 	Label   string
+	// Unless excludes paths: edges on which one of these atoms holds are cut
+	// (the ordering is only required on the remaining paths).
+	Unless []AtomPred
 }
 
 // Precedes checks: every path from the entry (or region start) to a site of b
@@ -324,6 +327,11 @@ func (f *Fn) Precedes(r *Rule, a, b *Sites, opt OrderOpt) bool {
 	start := opt.Start
 	if start == nil {
 		start = []int{f.G.Entry}
+	}
+	for _, u := range opt.Unless {
+		for e := range f.GuardEdges(u) {
+			cutE[e] = true
+		}
 	}
 	ok := true
 	for _, s := range b.List {
@@ -620,7 +628,7 @@ func (f *Fn) ResultFormula(resultIdx int, atoms map[string]bool) (Formula, error
 }
 
 // PredShape checks that result resultIdx of f is equivalent to the expected formula.
-func (f *Fn) PredShape(r *Rule, resultIdx int, expected string, label string) bool {
+func (f *Fn) PredShape(r *Rule, resultIdx int, expected string, label string, assume ...string) bool {
 	key := f.Name + ": " + label
 	r.AddSites(1)
 	atoms := map[string]bool{}
@@ -634,6 +642,16 @@ func (f *Fn) PredShape(r *Rule, resultIdx int, expected string, label string) bo
 	if err != nil {
 		r.Fail(key, f.P.Pos(f.Body.Pos()), "bad expected formula: %v", err)
 		return false
+	}
+	for _, a := range assume {
+		// semantic constraints between atoms (infeasible combinations are not compared)
+		af, err := ParseFormula(a, atoms)
+		if err != nil {
+			r.Fail(key, f.P.Pos(f.Body.Pos()), "bad assumption formula: %v", err)
+			return false
+		}
+		got = fAnd{got, af}
+		want = fAnd{want, af}
 	}
 	if eq, diff := Equivalent(got, want, atoms); !eq {
 		r.Fail(key, f.P.Pos(f.Body.Pos()), "result of %s is not equivalent to %s; atoms in code: [%s]; differs at: %s", f.Name, expected, strings.Join(gotAtoms, " ; "), diff)
@@ -679,7 +697,17 @@ func AtomLike(re string, pos bool) AtomPred {
 // NeverAfter checks that no site of then is reachable from a site of first
 // (e.g. nothing is deleted after the intent log was removed).
 func (f *Fn) NeverAfter(r *Rule, first, then *Sites, label string) bool {
+	return f.NeverAfterStop(r, first, then, nil, label)
+}
+
+// NeverAfterStop is NeverAfter where paths end at the stop vertices (e.g. the
+// entry of a loop body: the rule then speaks about one iteration).
+func (f *Fn) NeverAfterStop(r *Rule, first, then *Sites, stop []int, label string) bool {
 	key := f.Name + ": " + label
+	cutStop := map[int]bool{}
+	for _, s := range stop {
+		cutStop[s] = true
+	}
 	first, then = first.Sync(), then.Sync()
 	r.AddSites(first.Len() + then.Len())
 	if first.Len() == 0 || then.Len() == 0 {
@@ -692,7 +720,7 @@ func (f *Fn) NeverAfter(r *Rule, first, then *Sites, label string) bool {
 			if a.V == b.V {
 				continue
 			}
-			if p := f.FPath(f.G.Vs[a.V].Succ, b.V, nil, nil); p != nil {
+			if p := f.FPath(f.G.Vs[a.V].Succ, b.V, cutStop, nil); p != nil {
 				r.Fail(key, f.P.Pos(b.Node.Pos()), "%s can execute after %s; path (lines): %s", then.Desc, first.Desc, f.DescribePath(append([]int{a.V}, p...)))
 				ok = false
 			}
@@ -774,4 +802,86 @@ func (f *Fn) FailureStops(r *Rule, a, b *Sites, label string) bool {
 		}
 	}
 	return ok
+}
+
+// SelectCaseEntry returns the entry vertex of the body of the select case
+// whose communication statement contains a site of m, or -1.
+func (f *Fn) SelectCaseEntry(m Matcher) int {
+	var clause *ast.CommClause
+	ast.Inspect(f.Body, func(n ast.Node) bool {
+		if _, ok := n.(*ast.FuncLit); ok {
+			return false
+		}
+		cc, ok := n.(*ast.CommClause)
+		if !ok || cc.Comm == nil {
+			return true
+		}
+		ast.Inspect(cc.Comm, func(x ast.Node) bool {
+			if x != nil && m.M(f, x) {
+				clause = cc
+			}
+			return true
+		})
+		return true
+	})
+	if clause == nil {
+		return -1
+	}
+	for b, id := range f.G.blockE {
+		if b.Kind == cfg.KindSelectCaseBody && b.Stmt == clause {
+			return id
+		}
+	}
+	return -1
+}
+
+// DeferStale reports `defer g(..., v, ...)` statements (not closures) that pass
+// the local error variable v by value although v is assigned afterwards.
+func (f *Fn) DeferStale() []Site {
+	var out []Site
+	errT := types.Universe.Lookup("error").Type()
+	for _, v := range f.G.Vs {
+		d, ok := v.Node.(*ast.DeferStmt)
+		if !ok {
+			continue
+		}
+		if _, isLit := ast.Unparen(d.Call.Fun).(*ast.FuncLit); isLit {
+			continue
+		}
+		for _, a := range d.Call.Args {
+			id, ok := ast.Unparen(a).(*ast.Ident)
+			if !ok {
+				continue
+			}
+			o, ok := f.Info.Uses[id].(*types.Var)
+			if !ok || o.IsField() || !types.Identical(o.Type(), errT) {
+				continue
+			}
+			// is o assigned at a vertex reachable from the defer?
+			reach := f.G.Reach(v.Succ, nil, nil)
+			stale := false
+			for _, w := range f.G.Vs {
+				if !reach[w.ID] || w.Kind != VNode || w.Node == nil {
+					continue
+				}
+				ast.Inspect(w.Node, func(n ast.Node) bool {
+					if _, isLit := n.(*ast.FuncLit); isLit {
+						return false
+					}
+					if as, ok := n.(*ast.AssignStmt); ok {
+						for _, l := range as.Lhs {
+							if lid, ok := ast.Unparen(l).(*ast.Ident); ok && f.Info.Uses[lid] == o {
+								stale = true
+							}
+						}
+					}
+					return true
+				})
+			}
+			if stale {
+				out = append(out, Site{V: v.ID, Node: d, Deferred: true})
+			}
+		}
+	}
+	return out
 }
